@@ -164,7 +164,19 @@ func runC11(r *rt.Run, tier string) {
 		model = append([]mPara{{Fields: []mField{{Name: "Cr-Field", Lines: []string{"first\rsecond", "more\rtext"}}}}}, model...)
 		r.Probe("carriage-return-inside-a-signed-line")
 	}
-	if t.Bool(1, 12, "c11.blanktext") {
+	nested := false
+	if t.Bool(1, 14, "c11.nested") {
+		// the signed text itself BEGINS with a complete clearsigned document made by
+		// another key of the keyring candidates (a sponsor re-signing an upload
+		// as-is): the outer signature is the one that counts, and the signed text -
+		// which starts with an armor line, not with a field - is what is parsed
+		loadKeys()
+		inner := clearsignDoc(pgpKeys[1], []byte("Source: inner\nX-Signed-By: the inner key\n"))
+		text = append(append([]byte{}, inner...), text...)
+		nested = true
+		r.Probe("signed-text-begins-with-another-clearsigned-document")
+	}
+	if !nested && t.Bool(1, 12, "c11.blanktext") {
 		// a signed text without any paragraph: still has to be verified
 		text = []byte([]string{"", "\n", "\n\n"}[t.Draw(3, "c11.blankkind")])
 		model = nil
@@ -257,9 +269,17 @@ func runC11(r *rt.Run, tier string) {
 				data = append(append([]byte{}, armored[:p]...), armored[p+1:]...)
 				fault = "deletion"
 			case 2: // insertion
-				nb := "aZ0 -\n:="[t.Draw(8, "fault.ins")]
+				nb := []byte("aZ0 -\n:=\x80\xff\xc3\xa0")[t.Draw(12, "fault.ins")]
 				data = append(append(append([]byte{}, armored[:p]...), nb), armored[p:]...)
 				fault = "insertion"
+				if p >= hdrEnd && p < sigStart && (nb == 'a' || nb == 'Z' || nb == '0' || nb >= 0x80) {
+					// a byte that is not white space (an ASCII letter or digit, or a byte
+					// >= 0x80 - valid UTF-8 or not) added to the signed text: the text is
+					// no longer the text that was signed
+					mustFail, either = true, false
+					fault = "insertion/non-blank-byte-in-signed-text"
+					r.Probe("insertion-in-signed-text")
+				}
 			case 3: // truncation
 				data = armored[:p]
 				fault = "truncation"
@@ -356,6 +376,12 @@ func runC11(r *rt.Run, tier string) {
 		r.Stats["config.faultfree"]++
 	}
 
+	if nested && !mustFail {
+		// the signed text starts with an armor line, which is not a field: reading
+		// may fail when that line is parsed; only soundness is demanded (whoever is
+		// named as signer is the OUTER signer, whatever is returned is the signed text)
+		either = true
+	}
 	var keyring *openpgp.EntityList
 	switch krKind {
 	case 0:
@@ -401,7 +427,7 @@ func runC11(r *rt.Run, tier string) {
 		if res.signer != nil {
 			r.Violate("C11/signer-reported-without-keyring", key, "keyring is nil but Signer() is non-nil")
 		}
-		if fault == "none" && (!success || len(res.paras) != len(model)) {
+		if fault == "none" && !nested && (!success || len(res.paras) != len(model)) {
 			r.Violate("C11/genuine-document-rejected", key+"/nil-keyring", "nil keyring: err=%v paragraphs=%d want %d", res.err, len(res.paras), len(model))
 		}
 		return
@@ -579,7 +605,7 @@ func runC11(r *rt.Run, tier string) {
 	}
 
 	// 4. unsigned input never has a signer (the plain text of the same document)
-	if t.Bool(1, 8, "c11.unsigned") {
+	if !nested && t.Bool(1, 8, "c11.unsigned") {
 		ures := c11Read(r, api, text, keyring)
 		if ures.signer != nil {
 			r.Violate("C11/signer-reported-for-unsigned-input", api, "unsigned input, yet Signer() is non-nil")
@@ -600,5 +626,5 @@ func init() {
 		},
 		Assumptions: []string{"x/crypto/openpgp both signs and verifies: a bug common to both directions is invisible", "must-fail is only demanded where the canonical signed text or the decoded signature provably changed (non-blank text byte to another non-blank byte; base64 character to another base64 character; truncation before the checksum line; replaced signature; keyring without signer); all other faults are checked for soundness only", "fixture keys; signing with a fixed time is byte-deterministic"},
 	})
-	propProbes["C11"] = []string{"stream-grew-after-verification", "carriage-return-inside-a-signed-line", "callers-bufio-reused", "signed-text-without-paragraphs", "two-readers-alive", "reread-with-other-keyrings", "empty-keyring-as-nil-slice", "verification-succeeded", "dash-escaped-line", "substitution-in-signed-text", "substitution-in-signature-armor", "truncation-inside-armor", "nil-keyring", "unsigned-input"}
+	propProbes["C11"] = []string{"signed-text-begins-with-another-clearsigned-document", "insertion-in-signed-text", "stream-grew-after-verification", "carriage-return-inside-a-signed-line", "callers-bufio-reused", "signed-text-without-paragraphs", "two-readers-alive", "reread-with-other-keyrings", "empty-keyring-as-nil-slice", "verification-succeeded", "dash-escaped-line", "substitution-in-signed-text", "substitution-in-signature-armor", "truncation-inside-armor", "nil-keyring", "unsigned-input"}
 }
